@@ -27,10 +27,11 @@ class Data:
         return concept._extent.shortlex()
 
     @classmethod
-    def _fromlist(cls, context, lattice, unordered) -> 'Lattice':
+    def _fromlist(cls, context, lattice, unordered, inst=None) -> 'Lattice':
         make_objects = context._Objects.fromint
         make_properties = context._Properties.fromint
-        inst = object.__new__(cls)
+        if inst is None:
+            inst = object.__new__(cls)
         concepts = [Concept(inst,
                             make_objects(sum(1 << e for e in ex)),
                             make_properties(sum(1 << i for i in in_)),
@@ -140,13 +141,21 @@ class Data:
             c.properties = tuple(c.properties)
 
     def __getstate__(self):
-        """Pickle lattice as ``(context, concepts)`` tuple."""
-        return self._context, self._concepts
+        """Pickle lattice as ``(context, serialized concepts)`` tuple.
+
+        The concepts are serialized as index tuples (see ``_tolist()``)
+        so that pickling does not recurse through the neighbor links.
+        """
+        return self._context, self._tolist()
 
     def __setstate__(self, state):
-        """Unpickle lattice from ``(context, concepts)`` tuple."""
+        """Unpickle lattice from ``(context, serialized concepts)`` tuple."""
         context, concepts = state
-        self._init(self, context, concepts, unpickle=True)
+        if concepts and isinstance(concepts[0], Concept):
+            # pickled by earlier versions as list of concept objects
+            self._init(self, context, concepts, unpickle=True)
+        else:
+            self._fromlist(context, concepts, False, inst=self)
 
     def _tolist(self):
         return [(tuple(c._extent.iter_set()),
